@@ -84,6 +84,7 @@ class ImmutableKnotVector(tuple):
     def __sub__(self, nodes: Tuple[float]) -> ImmutableKnotVector:
         lista = list(self)
         for node in nodes:
+            float(node)  # Verify if it's a number
             lista.remove(node)
         return self.__class__(lista)
 
